@@ -116,8 +116,9 @@ _RD = ("ASSUMED CONTRACT on dateutil.relativedelta: SRelDelta re-implements date
        "addition algorithm (cross-checked on a grid by selftest_reldelta)")
 _FLOAT = ("floats are not modelled: float('12') is carried as the integer 12; decimal counts are outside the proofs "
           "(stand-ins only)")
-_UNI = ("ASSUMED: unicodedata.normalize / category on skeleton strings (ASCII letters, digits and punctuation are "
-        "fixed points of NFKD; categories by character class); anything else raises Unsupported")
+_UNI = ("ASSUMED: unicodedata.normalize on a skeleton string = the real function applied to each literal segment, "
+        "digit placeholders left alone (ASCII digits are starters and fixed points of every normal form); "
+        "unicodedata.category of a digit placeholder is 'Nd'")
 _EVAL = ("obligations of contracts marked concrete_samples=1 are decided by EVALUATING the real code over a finite "
          "domain stated in the contract's docstring (exhaustive over that domain), not by the solver")
 _CONV = ("ASSUMED CONTRACT on convertdate.persian / hijridate: uninterpreted conversion functions with month-length "
@@ -135,11 +136,11 @@ _STAND = "stand-ins (bounded or finite-domain run-time evaluation on the real li
 TRUSTED_BASE = {
     "*": _COMMON + [_EVAL, _STAND],
     "C01": _COMMON + [_RX, _STRP, _ZONE, _UNI, _EVAL, _STAND],
-    "C02": _COMMON + [_RX, _STRP, _ZONE, _EVAL, _STAND],
+    "C02": _COMMON + [_RX, _STRP, _ZONE, _UNI, _EVAL, _STAND],
     "C03": _COMMON + [_IND, _EVAL, _STAND],
     "C04": _COMMON + [_RX, _RD, _FLOAT, _ZONE, _UNI, _EVAL, _STAND],
-    "C05": _COMMON + [_RX, _STRP, _EVAL, _STAND],
-    "C06": _COMMON + [_RX, _RD, _FLOAT, _EVAL, _STAND],
+    "C05": _COMMON + [_RX, _STRP, _UNI, _EVAL, _STAND],
+    "C06": _COMMON + [_RX, _RD, _FLOAT, _UNI, _EVAL, _STAND],
     "C07": _COMMON + [_RX, _STRP, _UNI, _CLDR, _EVAL, _STAND],
     "C08": _COMMON + [_RX, _STRP, _UNI, _EVAL, _STAND],
     "C09": _COMMON + [_RX, _STRP, _ZONE, _UNI, _EVAL, _STAND],
@@ -150,7 +151,7 @@ TRUSTED_BASE = {
     "C14": _COMMON + [_RX, _STRP, _EVAL, _STAND],
     "C15": _COMMON + [_RX, _STRP, _CONV, _EVAL, _STAND],
     "C17": _COMMON + [_EVAL, _STAND],
-    "C18": _COMMON + [_EVAL, _STAND],
+    "C18": _COMMON + [_RX, _UNI, _EVAL, _STAND],
     "C19": _COMMON + [_FS, _EVAL, _STAND],
 }
 EXPLANATION = {}
